@@ -387,6 +387,73 @@ class Executor:
             s.add(extra)
         return s.check() != z3.unsat
 
+    def decide(self, st, cond):
+        """True / False when the quantifier-free path condition settles cond, else None"""
+        cond = simp(cond)
+        if cond is True or cond is False:
+            return cond
+        key = (len(st.pc), id(st), cond.get_id())
+        s = self._decide_solver(st)
+        s.push()
+        s.add(z3.Not(cond))
+        r1 = s.check()
+        s.pop()
+        if r1 == z3.unsat:
+            return True
+        s.push()
+        s.add(cond)
+        r2 = s.check()
+        s.pop()
+        if r2 == z3.unsat:
+            return False
+        return None
+
+    def _decide_solver(self, st):
+        # one incremental solver per (state, pc length); pc only grows along a path
+        tag = (id(st), len(st.pc))
+        if getattr(self, "_ds_tag", None) != tag:
+            s = z3.Solver()
+            s.set("timeout", 150)
+            for p in st.pc:
+                if not has_quantifier(p):
+                    s.add(p)
+            self._ds, self._ds_tag = s, tag
+        return self._ds
+
+    def ctx_simplify(self, st, e, depth=0):
+        """resolve the if-then-else nodes of e whose condition the path condition already decides (slice
+        normalisation and min/max produce many); purely a simplification, the result is equal under pc"""
+        if not is_z3(e):
+            return e
+        memo = {}
+
+        def go(x):
+            k = x.get_id()
+            if k in memo:
+                return memo[k]
+            if z3.is_app(x) and x.num_args() > 0:
+                if z3.is_app_of(x, z3.Z3_OP_ITE):
+                    c = go(x.arg(0))
+                    d = self.decide(st, c)
+                    if d is True:
+                        r = go(x.arg(1))
+                    elif d is False:
+                        r = go(x.arg(2))
+                    else:
+                        r = z3.If(c, go(x.arg(1)), go(x.arg(2)))
+                else:
+                    ch = [go(c) for c in x.children()]
+                    r = x.decl()(*ch) if any(not a.eq(b) for a, b in zip(ch, x.children())) else x
+            else:
+                r = x
+            memo[k] = r
+            return r
+
+        if z3.is_quantifier(e):
+            return e
+        out = go(e)
+        return simp(out)
+
     # -- spec expression evaluation -----------------------------------------------------------
     def spec(self, st, expr, extra_env=None, old=None):
         """evaluate a contract expression (string) in state st; no obligations are generated"""
@@ -1185,7 +1252,8 @@ class Evaluator:
             e0 = z3.IntVal(-1) if hi is None else clamp(z3.If(Z(hi) < 0, Z(hi) + n, Z(hi)), z3.IntVal(-1), n - 1)
             length = z3.If(s0 > e0, s0 - e0, z3.IntVal(0))
             start = s0
-        return Arr(arr.root, simp(Z(arr.off) + arr.step * start), arr.step * step, simp(length), arr.conj)
+        cs = self.ex.ctx_simplify
+        return Arr(arr.root, cs(self.st, simp(Z(arr.off) + arr.step * start)), arr.step * step, cs(self.st, simp(length)), arr.conj)
 
     # -- calls -----------------------------------------------------------------------------
     def e_Call(self, n):
